@@ -55,20 +55,24 @@ class HTTPReader:
         body = []
         while True:
             chunk_header = cls._read_until(stream, CR_LF)
-            chunk_headers = chunk_header.split(b';')  # length + optional chunk-extensions (name=value pairs)
-            chunk_len, _ = chunk_headers[0], chunk_headers[1:]  # we do nothing with chunk-extensions...
-            if chunk_len is None:
+            if chunk_header is None:
                 raise DechunkError(
                     'Could not extract chunk size: unexpected end of data.')
+            chunk_headers = chunk_header.split(b';')  # length + optional chunk-extensions (name=value pairs)
+            chunk_len, _ = chunk_headers[0], chunk_headers[1:]  # we do nothing with chunk-extensions...
 
             try:
                 chunk_len = int(chunk_len.strip(), 16)
             except (ValueError, TypeError) as err:
                 raise DechunkError('Could not parse chunk size:') from err
 
+            if chunk_len < 0:
+                raise DechunkError('Negative chunk size')
             bytes_to_read = chunk_len
             while bytes_to_read:
                 chunk = stream.read(bytes_to_read)
+                if not chunk:
+                    raise DechunkError('Unexpected end of data inside chunk.')
                 bytes_to_read -= len(chunk)
                 body.append(chunk)
 
